@@ -50,6 +50,8 @@ class Config(object):
         self.ratios = tuple(ratios) if ratios else None
 
     def fmt(self, x):
+        if self.numfmt == "e16":
+            return "%.16e" % float(x)         # exponent notation with an explicit sign (1.5000000000000000e+20): exact round trip
         return repr(float(x)) if self.numfmt == "repr" else "%.6g" % float(x)
 
     def q(self, x):
@@ -64,6 +66,10 @@ class Config(object):
         if dyadic:
             cand_dx = [0.125, 0.25, 0.5, 1.0, 0.0625]
             cand_or = [0.0, 1.0, -2.0, 0.5, -0.75]
+        elif numfmt == "e16":
+            # lengths of astrophysical size (cgs units): every number of the header carries an exponent with a + sign
+            cand_dx = [1.5e+19, 2.5e+20, 3.0e+18, 7.0e+19, 1.25e+21, 4.0e+20]
+            cand_or = [0.0, -3.0e+20, 1.0e+21, -7.5e+19, 2.0e+18]
         elif numfmt == "g6":
             # cell sizes whose decimal expansion does not end: every level's text is a ROUNDED number, ratios between the
             # stated cell sizes of two levels are not exactly powers of two and extent / cell size is not exactly the cell count
